@@ -30,7 +30,9 @@
        output = L [oneshot; datagram; L copying_rounds; L buffered_rounds]
          oneshot  = L [A 0; B pkt] | L [A 1] (DeserializeError) | L [A 2; A k] (class k escapes)
          datagram = L [A 0; B pkt] | L [A 1] (DatagramProtocolParseError) | L [A 2; A k]
-         rounds as in Run/Stream.v; L [] for a mode the serializer does not have                                    *)
+         rounds as in Run/Stream.v; L [] for a mode the serializer does not have
+         buffered rounds (kinds 6, 8, 20) may end with the event L [A 9; A 2]: ValueError left next() because the
+         remainder did not fit in the receive buffer (see RunBuf2)                                                    *)
 From EN Require Import Lib.Bytes Lib.Sx Frame.Framer Frame.ReadUntil Frame.BufReadUntil Frame.JsonRaw Frame.ErrSites
   Frame.Generic Frame.Deserialize Stream.Consumer Run.Stream Gen.ParamsC06.
 
@@ -109,6 +111,76 @@ Definition declared_by (hs : trysite) : list Z :=
   filter (fun k => Z.eqb (through_try hs k) c_StreamProtocolParseError) exception_codes.
 Definition stream_declared : list Z := declared_by stream_protocol.
 Definition bstream_declared : list Z := declared_by bstream_protocol.
+
+(* ---- the buffer-filling consumer with the one branch Stream/Consumer.v does not have:
+   BufferedStreamDataConsumer.__save_remainder_in_buffer does `buffer[:nbytes] = remaining_data` on the write view of a
+   fresh generator (the whole receive buffer); when the remainder is longer than the buffer the slice assignment raises
+   ValueError, which leaves next() instead of the packet / parse error.  In the shared model bc_save_remainder then
+   makes the memory grow (write_at past the end), which is how the overflow is recognised here.
+   Event L [A 9; A 2] = class 2 (ValueError) left next(); the run stops; get_value() is then b"". ---- *)
+Section RunBuf2.
+  Variable F : bframer pk.
+  Variable sizehint : nat.
+
+  Definition ovf_ev : sx := L [A 9; A 2]%Z.
+  Definition memlen (c : bcstate F) : nat := match bmem c with Some m => length m | None => 0 end.
+  Definition next2 (c : bcstate F) (n : option nat) : bcstate F * nres pk * bool :=
+    let '(c', r) := bcnext F sizehint c n in (c', r, Nat.ltb (memlen c) (memlen c')).
+
+  (* stop code: 0 keep going, 1 RuntimeError (crash), 2 remainder overflow *)
+  Fixpoint rb2_drain (fuel : nat) (c : bcstate F) : bcstate F * list sx * nat :=
+    match fuel with
+    | 0 => (c, [], 0)
+    | S f =>
+        match next2 c None with
+        | (c', RStop, _) => (c', [], 0)
+        | (c', r, ovf) =>
+            if ovf then (c', [ovf_ev], 2)
+            else if is_crash r then (c', [ev_sx r []], 1)
+            else let '(c'', evs, st) := rb2_drain f c' in (c'', ev_sx r (saved F c') :: evs, st)
+        end
+    end.
+
+  Definition held2 (st : nat) (c : bcstate F) : sx := if Nat.eqb st 2 then L [B []] else held F c.
+
+  Definition rb2_round (fuel : nat) (c : bcstate F) (data : bytes) : bcstate F * sx * bool * nat :=
+    let '(c1, v) := bc_get_write_buffer F sizehint c in
+    match v with
+    | None => (c1, L [A 0%Z; L [L [A 2%Z]]; held F c1], true, 0)
+    | Some (_, len) =>
+        let d := firstn len data in
+        let c2 := bc_fill F c1 d in
+        match next2 c2 (Some (length d)) with
+        | (c3, RStop, _) => (c3, L [of_nat (length d); L []; held F c3], false, length d)
+        | (c3, r, ovf) =>
+            if ovf then (c3, L [of_nat (length d); L [ovf_ev]; L [B []]], true, length d)
+            else if is_crash r then (c3, L [of_nat (length d); L [ev_sx r []]; held F c3], true, length d)
+            else let '(c4, evs, st) := rb2_drain fuel c3 in
+                 (c4, L [of_nat (length d); L (ev_sx r (saved F c3) :: evs); held2 st c4], negb (Nat.eqb st 0), length d)
+        end
+    end.
+
+  Fixpoint rb2_chunk (rounds fuel : nat) (c : bcstate F) (data : bytes) : bcstate F * list sx * bool :=
+    match rounds with
+    | 0 => (c, [], false)
+    | S k =>
+        match data with
+        | [] => (c, [], false)
+        | _ =>
+            let '(c', o, cr, n) := rb2_round fuel c data in
+            if cr then (c', [o], true)
+            else let '(c'', os, cr') := rb2_chunk k fuel c' (skipn n data) in (c'', o :: os, cr')
+        end
+    end.
+
+  Fixpoint rb2_all (fuel : nat) (c : bcstate F) (chunks : list bytes) : list sx :=
+    match chunks with
+    | [] => []
+    | ch :: chs =>
+        let '(c', os, cr) := rb2_chunk (S (length ch)) fuel c ch in
+        if cr then os else os ++ rb2_all fuel c' chs
+    end.
+End RunBuf2.
 
 (* ---- one serializer, all its modes ---- *)
 Record fam_model := {
@@ -255,7 +327,7 @@ Definition run_all_modes (m : fam_model) (data : bytes) (chunks : list bytes) (h
   let o := fm_oneshot m data in
   L [oneshot_sx o; dgram_sx o;
      match fm_copy m with Some F => L (rc_all F fuel (cinit F) chunks) | None => L [] end;
-     match fm_buf m with Some F => L (rb_all F hint fuel (bcinit F) chunks) | None => L [] end].
+     match fm_buf m with Some F => L (rb2_all F hint fuel (bcinit F) chunks) | None => L [] end].
 
 (* the simple instantiations (no exception classes): inner codec as in Run/Stream.v *)
 Definition simple_inner (dec : decoder pk) : bytes -> ores pk :=
@@ -299,7 +371,7 @@ Definition run (i : sx) : sx :=
           do expected <- as_list_of as_Z ex;
           let lim := Z.to_nat limit in
           let F := bwrap_generic (fb_framer lim load (fun k => memZ k expected)) (fb_alloc lim) in
-          L (rb_all F (Z.to_nat hint) fuel (bcinit F) chunks)
+          L (rb2_all F (Z.to_nat hint) fuel (bcinit F) chunks)
       | 7%Z, L [ex] =>
           match tabs with
           | L [t1; t2] =>
@@ -319,7 +391,7 @@ Definition run (i : sx) : sx :=
               do expected <- as_list_of as_Z ex;
               let F := bwrap_generic (cz_framer dobj dnew dd deof dunused (fun k => memZ k expected) (simple_inner dec)
                                         (fun k => Z.eqb k c_DeserializeError)) cz_alloc in
-              L (rb_all F (Z.to_nat hint) fuel (bcinit F) chunks)
+              L (rb2_all F (Z.to_nat hint) fuel (bcinit F) chunks)
           | _ => bad_input
           end
       | _, _ => bad_input
